@@ -18,6 +18,7 @@ pkgdir=""
 for d in $demos; do
   pkg=$(grep -m1 '^package ' "$OUT/$d" | awk '{print $2}' | sed 's/_test$//')
   pkgdir=$(cd "$W" && ls -d */ | tr -d / | grep -x "$pkg" | head -1)
+  [ "$pkg" = main ] && pkgdir=galenectl
   [ -z "$pkgdir" ] && pkgdir=$pkg
   cp "$OUT/$d" "$DEST/$d"
 done
